@@ -421,11 +421,13 @@ def _bundle(tag, length):
 def _udp_mixed_ids(order):
     ''' Whole bundles and segmented transfers whose peer-chosen transfer ids coincide with local receive ids. '''
     def make(rng, cbor2):
-        big1, big2 = _bundle(0x11, 40), _bundle(0x12, 30)
+        big1, big2, big3 = _bundle(0x11, 40), _bundle(0x12, 30), _bundle(0x13, 43)
         parts = {
             'w1': [_bundle(0x01, 5)], 'w2': [_bundle(0x02, 6)], 'w3': [_bundle(0x03, 7)],
             's1': [cbor2.dumps({2: [1, len(big1), 0, big1[:20]]}), cbor2.dumps({2: [1, len(big1), 20, big1[20:]]})],
             's0': [cbor2.dumps({2: [0, len(big2), 0, big2[:10]]}), cbor2.dumps({2: [0, len(big2), 10, big2[10:]]})],
+            # three segments, the middle one last
+            't7': [cbor2.dumps({2: [7, len(big3), 0, big3[:15]]}), cbor2.dumps({2: [7, len(big3), 30, big3[30:]]}), cbor2.dumps({2: [7, len(big3), 15, big3[15:30]]})],
         }
         out = []
         for name in order:
@@ -434,7 +436,7 @@ def _udp_mixed_ids(order):
     return make
 
 
-_UDP_MIXED = {'w1': _bundle(0x01, 5), 'w2': _bundle(0x02, 6), 'w3': _bundle(0x03, 7), 's1': _bundle(0x11, 40), 's0': _bundle(0x12, 30)}
+_UDP_MIXED = {'w1': _bundle(0x01, 5), 'w2': _bundle(0x02, 6), 'w3': _bundle(0x03, 7), 's1': _bundle(0x11, 40), 's0': _bundle(0x12, 30), 't7': _bundle(0x13, 43)}
 
 
 def _udp_hostile(rng, cbor2):
@@ -470,7 +472,7 @@ def cases(tier, seed):
     out.append(dict(id='udp-benign', kind='udp', which='benign', seed=seed, mtu=None, sends=[10, 500]))
     out.append(dict(id='udp-benign-mtu', kind='udp', which='benign', seed=seed + 1, mtu=100, sends=[10, 99, 100, 400]))
     out.append(dict(id='udp-hostile', kind='udp', which='hostile', seed=seed + 2, mtu=None, sends=[]))
-    for oidx, order in enumerate((['w1', 's1', 'w2'], ['s0', 'w1'], ['w1', 'w2', 's1', 's0', 'w3'], ['s1', 's0', 'w1', 'w2'], ['w1', 's0', 's1'])):
+    for oidx, order in enumerate((['w1', 's1', 'w2'], ['s0', 'w1'], ['w1', 'w2', 's1', 's0', 'w3'], ['s1', 's0', 'w1', 'w2'], ['w1', 's0', 's1'], ['t7'], ['w1', 't7', 's1'])):
         out.append(dict(id='udp-ids-%d' % oidx, kind='udp', which='ids', order=order, seed=seed + 10 + oidx, mtu=None, sends=[]))
     return out
 
